@@ -969,12 +969,27 @@ def r17_5_error_of_the_empty_verdict(ctx):
                                 f.loc(ret), '%s forwards %s for a verdict that may be empty' % (q, en))
     for q in ('__recognize_union', '__recognize_user_classes'):
         f = fn(P, S.REC + q)
+        # the accumulator of causes: whatever local receives `.append(<error of a child judgement>)`
         apps = [c for c in f.walk() if isinstance(c, ast.Call) and isinstance(c.func, ast.Attribute) and c.func.attr == 'append'
-                and norm(c.func.value) == 'causes']
+                and isinstance(c.func.value, ast.Name) and len(c.args) == 1 and isinstance(c.args[0], ast.Name)
+                and any(vv is not None for vv, d in _verdict_vars_of(f, c, c.args[0].id))]
         for c in apps:
             en = norm(c.args[0])
             vs = _verdict_vars_of(f, c, en)
             ok = bool(vs) and all(vv is not None and f.card(c, vv) == {0} for vv, d in vs)
             r.check(ok, '%s: causes.append(%s) under len(%s) == 0' % (q, en, [vv for vv, d in vs]), f.key('cause:%s@%d' % (en, apps.index(c))),
                     f.loc(c), '%s records %s as a cause although its verdict is not (known to be) empty' % (q, en))
+        # ... and the error of every child judgement is recorded: each `V, e = <recognise ...>` binding reaches a causes.append(e)
+        # (R17.1 shows that format_rec_error renders exactly the leaves of this list: an error that is not recorded is not shown)
+        # (not the descent into registered subclasses: C17 speaks about places where no derived class offers another reading)
+        binds = [d for d in f.walk() if isinstance(d, ast.Assign) and isinstance(d.targets[0], ast.Tuple) and len(d.targets[0].elts) == 2
+                 and isinstance(d.value, ast.Call) and call_name(d.value) in ('recognize', '__recognize_user_class')
+                 and isinstance(d.targets[0].elts[1], ast.Name)]
+        for i, d in enumerate(binds):
+            en = d.targets[0].elts[1].id
+            rec = [c for c in apps if c.args and norm(c.args[0]) == en and any(x is d for x in reaching_defs(f, c, en))]
+            r.check(bool(rec), '%s: the error of %s(...) is recorded as a cause' % (q, call_name(d.value)),
+                    f.key('cause-recorded:%s@%d' % (call_name(d.value), i)), f.loc(d),
+                    '%s never records the error returned by %s(...) in the list of causes: when that child is the one that rejected, '
+                    'its message (the position and the key it names) is missing from the RecognitionError' % (q, call_name(d.value)))
     r.done()
